@@ -76,6 +76,10 @@ func FreshnessReply(t *rapid.T, h *Hist, label string) world.Reply {
 		rp.Header = append(rp.Header, H("Expires", DateOffFmt(t, label+"-f5", dateOff-Seconds(t, label+"-exppast")-1)))
 	case 4:
 		rp.Header = append(rp.Header, H("Expires", Pick(t, label+"-expinv", "0", "-1", "never", "Thu, 01 Jan 1970 00:00:00 UTC")))
+		if Pct(t, label+"-exp2", 30) {
+			// a second field line does not repair the first: Expires is no list
+			rp.Header = append(rp.Header, H("Expires", DateOffFmt(t, label+"-f6", dateOff+3600)))
+		}
 	}
 	// Last-Modified
 	switch Weighted(t, label+"-lm", 40, 40, 7, 7, 6) {
